@@ -200,7 +200,7 @@ class Ctx:
         raise Machinery("trace validation run failed (rc=%s) without a rejection:\n%s" % (r.rc, tail))
 
     def validate_traces_all(self, module, cfg, trace_path, key="trace/rejected", what=None,
-                            max_rejects=4, keyfn=None, **kw):
+                            max_rejects=4, keyfn=None, groupfn=None, **kw):
         """Validate a reset-delimited concatenation of traces. A rejected trace is cut out,
         re-validated alone (to rule out batching artefacts), reported, and validation continues
         with the remaining traces. Returns number of traces accepted."""
@@ -267,6 +267,10 @@ class Ctx:
                                                ", invariant " + r1.violated if r1.violated else ""), info)
             rejects += 1
             traces = traces[idx + 1:]
+            if groupfn:
+                # further traces of the same group (e.g. same object) would be rejected for the same reason
+                g = groupfn(ev[0])
+                traces = [t for t in traces if groupfn(json.loads(t[0])) != g]
             if rejects >= max_rejects:
                 break
         self.cov["traces_validated_against_impl"] += accepted
